@@ -1,4 +1,6 @@
 use super::Value;
+use super::evaluator_numeric::compare_i64_f64;
+use std::cmp::Ordering;
 use std::collections::BTreeMap;
 
 pub(super) fn cypher_equals(left: &Value, right: &Value) -> Value {
@@ -21,10 +23,7 @@ pub(super) fn cypher_equals(left: &Value, right: &Value) -> Value {
 }
 
 fn float_equals_int(float_value: f64, int_value: i64) -> bool {
-    if float_value.is_nan() || !float_value.is_finite() {
-        return false;
-    }
-    float_value == int_value as f64
+    compare_i64_f64(int_value, float_value) == Some(Ordering::Equal)
 }
 
 fn cypher_equals_sequence(left: &[Value], right: &[Value]) -> Value {
